@@ -131,32 +131,6 @@ Proof.
 Qed.
 
 (** * the invariant over the whole pool *)
-Lemma nodup_app_iff : forall (a b : list Z), NoDup (a ++ b) <-> NoDup a /\ NoDup b /\ (forall x, In x a -> ~ In x b).
-Proof.
-  induction a; simpl; intros.
-  - split; [intros; repeat split; auto; constructor | tauto].
-  - split.
-    + intros H. inversion H; subst. apply IHa in H3. destruct H3 as (Ha & Hb & Hd).
-      repeat split; auto.
-      * constructor; auto. intro. apply H2. apply in_or_app. auto.
-      * intros x [->|Hx]; auto. intro. apply H2. apply in_or_app. auto.
-    + intros (Ha & Hb & Hd). inversion Ha; subst. constructor.
-      * intro Hi. apply in_app_or in Hi. destruct Hi; auto. apply (Hd a); auto.
-      * apply IHa. repeat split; auto.
-Qed.
-
-Lemma nodup_flat_map_suffix : forall A (p g : A -> list Z) l,
-  NoDup (flat_map (fun a => p a ++ g a) l) -> NoDup (flat_map g l).
-Proof.
-  induction l; simpl; intros H; [constructor|].
-  rewrite <- app_assoc in H. apply nodup_app_iff in H. destruct H as (_ & H & _).
-  apply nodup_app_iff in H. destruct H as (Hg & Hr & Hd).
-  apply nodup_app_iff. repeat split; auto.
-  intros x Hx Hi. apply (Hd x Hx).
-  apply in_flat_map in Hi. destruct Hi as (b & Hb & Hxb).
-  apply in_flat_map. exists b. split; auto. apply in_or_app. auto.
-Qed.
-
 Record ids_inv (lon loe : Z) (c : gcfg) : Prop := {
   ii_nd : NoDup (flat_map (ids_of is_cnode) (pool c));
   ii_nb : forall x, In x (flat_map (ids_of is_cnode) (pool c)) -> lon <= x < g_next_node (sh c);
